@@ -1,13 +1,20 @@
 #!/usr/bin/env python3
-"""resolve a merge conflict in known_findings.json: union of findings (by id) and fixed entries (by property+commit)"""
-import json, subprocess, sys
+"""resolve a merge conflict in known_findings.json by a three-way merge: findings by id (deletions and edits of either side
+relative to the merge base are kept), fixed entries by (property, commit) union"""
+import json, subprocess
 def load(stage):
     try: return json.loads(subprocess.run(['git', 'show', f':{stage}:known_findings.json'], capture_output=True, text=True, check=True).stdout)
     except Exception: return {'findings': [], 'fixed': []}
-a, b = load(2), load(3)
-f = {x['id']: x for x in a.get('findings', [])}
-for x in b.get('findings', []): f.setdefault(x['id'], x)
-fx = {(x['property'], x.get('commit')): x for x in a.get('fixed', [])}
-for x in b.get('fixed', []): fx.setdefault((x['property'], x.get('commit')), x)
-json.dump({'findings': list(f.values()), 'fixed': list(fx.values())}, open('known_findings.json', 'w'), indent=1)
-print(len(f), 'findings', len(fx), 'fixed')
+base, ours, theirs = load(1), load(2), load(3)
+B = {x['id']: x for x in base.get('findings', [])}; O = {x['id']: x for x in ours.get('findings', [])}; T = {x['id']: x for x in theirs.get('findings', [])}
+out = {}
+for i in list(O) + [k for k in T if k not in O]:
+    o, t, b = O.get(i), T.get(i), B.get(i)
+    if b is not None and (o is None or t is None): continue            # deleted on one side
+    if o is None: out[i] = t
+    elif t is None: out[i] = o
+    else: out[i] = t if (t != b and o == b) else o
+fx = {(x['property'], x.get('commit')): x for x in ours.get('fixed', [])}
+for x in theirs.get('fixed', []): fx.setdefault((x['property'], x.get('commit')), x)
+json.dump({'findings': list(out.values()), 'fixed': list(fx.values())}, open('known_findings.json', 'w'), indent=1)
+print(len(out), 'findings', len(fx), 'fixed')
